@@ -8,6 +8,7 @@ import (
 	"fmt"
 	"math/big"
 	"math/rand"
+	"sync"
 	"time"
 
 	"github.com/btcsuite/btcd/blockchain"
@@ -57,7 +58,8 @@ type Gen struct {
 	Now        time.Time // the clock against which "too new" is judged
 	WithBlocks bool
 	Spacing    int64 // seconds: TargetTimePerBlock
-	ByHash     map[chainhash.Hash]*Node
+	ByHash     map[chainhash.Hash]*Node // guarded by mu: use Lookup outside the generator
+	mu         sync.RWMutex
 	MaxHashes  float64 // cap on expected hashes per header when steering difficulty
 	Hashes     int64   // total hashes tried (cost counter)
 
@@ -135,6 +137,14 @@ func NewGen(c Config) *Gen {
 	g.Genesis = n
 	g.ByHash[gh] = n
 	return g
+}
+
+// Lookup returns the node with the given hash (nil if unknown). Safe for
+// concurrent use with the generator extending the tree.
+func (g *Gen) Lookup(h chainhash.Hash) *Node {
+	g.mu.RLock()
+	defer g.mu.RUnlock()
+	return g.ByHash[h]
 }
 
 // mine sets the nonce (and, if the nonce space is exhausted, bumps the
@@ -283,7 +293,9 @@ func (g *Gen) newNode(parent *Node, h wire.BlockHeader, rule string) *Node {
 		Rule: rule, ChainValid: parent.ChainValid && rule == "",
 	}
 	n.CumWork = new(big.Int).Add(parent.CumWork, blockchain.CalcWork(h.Bits))
+	g.mu.Lock()
 	g.ByHash[n.Hash] = n
+	g.mu.Unlock()
 	return n
 }
 
